@@ -11,21 +11,21 @@ CHECKS = {
 	'C07': dict(
 		category='exploration',
 		technique='exhaustive enumeration (all k-mers k<=8, all byte strings len<=2) + Hypothesis-generated long k-mers/indices against a positional-arithmetic oracle',
-		text='Complete enumeration of the small sub-domains named in the property (every k-mer up to k=8, every 0..2-byte string, boundary k-mers for every k up to 32, over-long strings) plus generated 9..32-mers, near-miss bytes, 64-bit indices, Bio.Seq / NumPy-integer arguments and strided byte buffers, and short call sequences executed as the first native calls of a fresh interpreter (lazily initialised state), each compared with Python-int positional arithmetic and a 256-entry complement table. Exhaustive where the property says exhaustive; sampled (tens of thousands to a million cases) for k>8.',
+		text='Complete enumeration of the small sub-domains named in the property (every k-mer up to k=8, every 0..2-byte string, boundary k-mers for every k up to 32, over-long strings) plus generated 9..32-mers, near-miss bytes, 64-bit indices, Bio.Seq / NumPy-integer arguments (index and k, for every k up to 32) and strided byte buffers, and short call sequences executed as the first native calls of a fresh interpreter (lazily initialised state; interpreter started plainly, with -O, -OO or -X dev), each compared with Python-int positional arithmetic and a 256-entry complement table. Exhaustive where the property says exhaustive; sampled (tens of thousands to a million cases) for k>8.',
 		note='Trusts the harness oracle (vlib/refmodel/kmer.py). Native code is tested as the generated C translation compiled by gcc (Cython is not available in the sandbox to re-translate an edited .pyx).',
 		design='DESIGN.md §4 C07',
 	),
 	'C01': dict(
 		category='exploration',
 		technique='exhaustive short strings x small specs + Hypothesis fragment-built sequences vs a definitional both-strand k-mer finder (reference model)',
-		text='Every string up to length 6 (quick) / 8 (thorough) over two 4-letter alphabets for 18 (k,prefix) specs is compared with a definitional scan of both strands, which settles off-by-one errors in either search bound and the reverse slice for short inputs completely; generated multi-sequence inputs (arbitrary bytes, overlapping/self-overlapping/palindromic prefixes up to 12 nt, hits flush with either end, k up to 32) are run through all four input types and all accumulators and compared value-for-value, dtype and order; find_kmers matches are compared with the definitional occurrences; whitespace inside a sequence counts as any other non-ACGT character (it is never removed so that its flanks join); 3 cases in 5 are preceded by calls that fail part-way, which must leave no trace.',
+		text='Every string up to length 6 (quick) / 8 (thorough) over two 4-letter alphabets for 18 (k,prefix) specs is compared with a definitional scan of both strands, which settles off-by-one errors in either search bound and the reverse slice for short inputs completely; the KmerSpec object is reached in eight legal ways (prefix in upper / lower / mixed case, str / bytes / bytearray / Bio.Seq, k as a NumPy integer, pickled copy); generated multi-sequence inputs (arbitrary bytes, overlapping/self-overlapping/palindromic prefixes up to 12 nt, hits flush with either end, k up to 32) are run through all four input types and all accumulators and compared value-for-value, dtype and order; find_kmers matches are compared with the definitional occurrences; whitespace inside a sequence counts as any other non-ACGT character (it is never removed so that its flanks join); 3 cases in 5 are preceded by calls that fail part-way, which must leave no trace.',
 		note='Trusts vlib/refmodel/kmer.py (literal reverse-complement strand, Python-int base-4 code). Dense accumulator only for k<=12 (4^k bytes). Native encoders tested as the existing C translation.',
 		design='DESIGN.md §4 C01',
 	),
 	'C02': dict(
 		category='exploration',
 		technique='exhaustive subset pairs x 36 dtype pairs + Hypothesis-generated boundary-straddling sets vs exact integer ratio rounded once to binary32 (bit compare)',
-		text='All ordered pairs of subsets of a 6/8-element universe in all 36 dtype combinations, plus generated pairs (patterns: equal, disjoint, nested, interleaved, same last, prefix, empty; universes straddling 2^15/2^16/2^31/2^32/2^63 and ending at the top of the wider type; universes whose values alias each other modulo 2^16 / 2^32; sets up to 3000 elements and size-skewed pairs (one set >= 4096, the other <= 1/64 of it, values above 2^53); strided views; both argument orders) are compared bit-for-bit with an integer-arithmetic round-half-even oracle; jaccard() must be one minus that distance.',
+		text='All ordered pairs of subsets of a 6/8-element universe in all 36 dtype combinations, plus generated pairs (patterns: equal, disjoint, nested, interleaved, same last, prefix, empty; universes straddling 2^15/2^16/2^31/2^32/2^63 and ending at the top of the wider type; universes whose values alias each other modulo 2^16 / 2^32; sets up to 3000 elements and size-skewed pairs (one set >= 4096, the other <= 1/64 of it, values above 2^53); strided views; NumPy's other names for the 64-bit types (long long: equal dtype, distinct scalar type); both argument orders) are compared bit-for-bit with an integer-arithmetic round-half-even oracle; jaccard() must be one minus that distance.',
 		note='Trusts vlib/refmodel/jaccard.py. Sets >= 2^24 elements are not built. Signed arrays hold non-negative values only (documented precondition).',
 		design='DESIGN.md §4 C02',
 	),
@@ -39,35 +39,35 @@ CHECKS = {
 	'C20': dict(
 		category='exploration',
 		technique='exhaustive index expressions (n<=4/6) over 3 container types + Hypothesis-generated expressions, equality pairs and list-mutation histories vs a Python list model',
-		text='Every int index, slice (all start/stop/step over a small range incl. step 0), index list of length <=3 and boolean mask is evaluated on SignatureArray, SignatureList and file-backed HDF5Signatures of length 0..4 (quick) / 0..6 (thorough) and compared with what a plain list of the arrays gives (selection, error class, k-mer spec, dtype, caller index array unmodified); longer collections in further container variants (int32 / uint64 bounds, windows with bounds[0] != 0, views, gzip-compressed files), ill-typed indices, unsigned indices up to 2^64-1, cross-container equality pairs (incl. reverse-complement prefixes) and 50-step SignatureList mutation histories (model-based) are generated.',
+		text='Every int index, slice (all start/stop/step over a small range incl. step 0), index list of length <=3 and boolean mask is evaluated on SignatureArray, SignatureList and file-backed HDF5Signatures of length 0..4 (quick) / 0..6 (thorough) and compared with what a plain list of the arrays gives (selection, error class, k-mer spec, dtype, caller index array unmodified); longer collections in further container variants (int32 / uint64 bounds, windows with bounds[0] != 0, views, gzip-compressed files), ill-typed indices, unsigned indices up to 2^64-1, cross-container equality pairs (incl. reverse-complement prefixes) and 50-step SignatureList mutation histories (model-based, including sub-collections sliced off earlier, which must stay independent lists) are generated.',
 		note='Oracle is a Python list; view/copy semantics are not asserted. A Python bool as scalar index is excluded (list and NumPy semantics disagree). Two genuine defects found and repaired (see KNOWN_FINDINGS.txt).',
 		design='DESIGN.md §4 C20',
 	),
 	'C05': dict(
 		category='exploration',
 		technique='Hypothesis-generated collections x containers x chunk sizes x index selections x out buffers x thread counts, repeated runs; differential oracle: pairwise jaccarddist + exact rational distance per cell (bit compare)',
-		text='Every cell of jaccarddist_array / jaccarddist_matrix / jaccarddist_pairwise (square and condensed) is compared bit-for-bit with the two-signature distance and, for sets <= 400 elements, with the exact rational value rounded once to binary32, over generated collections (empty signatures, duplicates, 5000-element signatures) held in SignatureArray (incl. int32 bounds and zero-copy windows whose bounds do not start at 0), SignatureList, plain list and HDF5 files, values aliasing modulo 2^16/2^32 under mixed dtypes, index arrays of several integer dtypes, with chunk sizes 1..n+1, permuted/repeated/empty index selections, fresh and strided out buffers, and 1..16 OpenMP threads, each call repeated 3x (quick) / 20x (thorough).',
+		text='Every cell of jaccarddist_array / jaccarddist_matrix / jaccarddist_pairwise (square and condensed) is compared bit-for-bit with the two-signature distance and, for sets <= 400 elements, with the exact rational value rounded once to binary32, over generated collections (empty signatures, duplicates, 5000-element signatures) held in SignatureArray (incl. int32 bounds and zero-copy windows whose bounds do not start at 0), SignatureList, plain list and HDF5 files, values aliasing modulo 2^16/2^32 under mixed dtypes, index arrays of several integer dtypes, with chunk sizes 1..n+1, permuted/repeated/empty index selections, fresh and strided out buffers, and 1..16 OpenMP threads, each call repeated 3x (quick) / 20x (thorough); a sample of cases is re-run in a fresh interpreter whose OpenMP runtime is configured through the environment (OMP_THREAD_LIMIT below the requested thread count, OMP_DYNAMIC, OMP_SCHEDULE, OMP_NUM_THREADS, OMP_PROC_BIND).',
 		note='The OpenMP dynamic schedule cannot be owned from Python: thread interleavings are sampled (thread counts x repeats), not enumerated, so a rare data race can be missed (a seeded shared-variable race is caught within the quick budget). OMP_WAIT_POLICY=passive is set for the workers.',
 		design='DESIGN.md §4 C05',
 	),
 	'C12': dict(
 		category='exploration',
 		technique='Hypothesis-generated signature collections: dump/load round trip vs a list model; generated foreign byte strings and foreign HDF5 files must be refused',
-		text='Round trips over k 1..32 (all four index widths, values up to 4^k-1), empty/all-empty signatures, both write paths, string/int64/uint64 IDs, Unicode metadata with nested JSON extra and every compression filter, stored integer types wider than / signed variants of the k-mer spec type, payloads above 64 Ki values, overwritten paths and pathlib paths are compared field by field and index expression by index expression with a Python list model; generated non-signature files (empty, text, FASTA, random, gzip, short prefixes, HDF5 files of other kinds incl. signature-shaped files lacking only the marker, files carrying an HDF5 superblock at a non-zero offset such as a tar archive of a signature file) must raise SignaturesFileError, and corrupt HDF5-magic files some exception.',
+		text='Round trips over k 1..32 (all four index widths, values up to 4^k-1), empty/all-empty signatures, both write paths, string/int64/uint64 IDs, Unicode metadata with nested JSON extra and every compression filter, stored integer types wider than / signed variants of the k-mer spec type, payloads above 64 Ki values, overwritten paths, pathlib paths, wrappers around already annotated wrappers (the outer labels count) and collections loaded from another signature file are compared field by field and index expression by index expression with a Python list model; generated non-signature files (empty, text, FASTA, random, gzip, short prefixes, HDF5 files of other kinds incl. signature-shaped files lacking only the marker, files carrying an HDF5 superblock at a non-zero offset such as a tar archive of a signature file) must raise SignaturesFileError, and corrupt HDF5-magic files some exception.',
 		note='Strings contain no NUL / lone surrogates (not storable in HDF5 vlen strings). h5py/HDF5 are part of the system under test only through gambit\'s use of them.',
 		design='DESIGN.md §4 C12',
 	),
 	'C19': dict(
 		category='fault_enumeration',
 		technique='process-level fault injection: forked writer ended (SIGKILL / SIGTERM / SIGINT) before each h5py call boundary (all points enumerated per generated payload) + strace system-call fault injection; oracle: load raises or loads exactly the payload',
-		text='For each generated payload (both write paths, small and multi-megabyte, with/without compression) every storage-call boundary of the write is used as a crash point (one forked writer per point, plus the after-close control), the writer being the library call or the `signatures create` command and being ended by SIGKILL (nothing runs), SIGTERM or SIGINT (the interpreter unwinds, context managers close the file), the output path being absent, junk or an older complete signature file; for a sample of payloads every write-type system call of a fresh writer process is used as a crash point through strace fault injection (crashes inside H5Fclose); the file left behind must be refused or load as exactly the payload.',
+		text='For each generated payload (both write paths, small and multi-megabyte, with/without compression) every storage-call boundary of the write is used as a crash point (one forked writer per point, plus the after-close control), the writer being the library call or the `signatures create` command and being ended by SIGKILL (nothing runs), SIGTERM or SIGINT (the interpreter unwinds, context managers close the file), the output path being absent, junk or an older complete signature file, the collection being handed over directly, as nested wrappers or as a collection loaded from another signature file; for a sample of payloads every write-type system call of a fresh writer process is used as a crash point through strace fault injection (crashes inside H5Fclose); the file left behind must be refused or load as exactly the payload.',
 		note='Library-level crash points are h5py call boundaries (attribute set, dataset create, dataset write, flush, close); system-call-level points need ptrace (the check degrades to library level if strace is unavailable). Signals model process death, not power loss. One genuine defect found and repaired (D9: an interrupted write that unwinds left a loadable zero-filled file).',
 		design='DESIGN.md §4 C19',
 	),
 	'C06': dict(
 		category='exploration',
 		technique='Hypothesis-generated multi-contig genomes x file-level transformation stacks; metamorphic equality + per-contig union + definitional k-mer oracle',
-		text='Each generated genome is written as a baseline FASTA and as a transformed file (per-contig reverse complement, contig permutation, case pattern, wrap width 1..200/none, CRLF, no final newline, single- and multi-member gzip with matching or mismatching file name, extensions; contigs larger than the I/O buffers; optionally after a file that failed part-way); the two file signatures must be identical, equal the union of the per-contig signatures and equal the definitional signature of the contig list; contigs with a dangling prefix completed by the next contig make a k-mer across the boundary detectable.',
+		text='Each generated genome is written as a baseline FASTA and as a transformed file (per-contig reverse complement, contig permutation, case pattern, wrap width 1..200/none, CRLF, no final newline, single- and multi-member gzip with matching or mismatching file name, extensions; contigs larger than the I/O buffers; optionally after a file that failed part-way; k-mer specification built from differently spelled prefixes); the two file signatures must be identical, equal the union of the per-contig signatures and equal the definitional signature of the contig list; contigs with a dangling prefix completed by the next contig make a k-mer across the boundary detectable.',
 		note='FASTA files are ASCII with one header per record; blank lines / lone-CR line endings are not generated. Biopython\'s FASTA parser is part of the path under test.',
 		design='DESIGN.md §4 C06',
 	),
@@ -88,21 +88,21 @@ CHECKS = {
 	'C10': dict(
 		category='exploration',
 		technique='Hypothesis-generated forests/matches with ALL permutations of the reference order (n<=6) and of the matched-taxon list vs a set-level consensus model',
-		text='For every generated case all reference orders (n <= 6; 200 drawn orders above) are classified in strict mode and consensus_taxon is run on all orders of the matched-taxon list; prediction, success/error flags, others-set, conflict warning (exactly the taxa strictly below the prediction) and primary match are compared with a set-level model, so order independence is checked by construction; a second phase edits the same live objects in place and re-checks; generated databases are also materialised with two different reference orders and queried in strict mode end to end.',
+		text='For every generated case all reference orders (n <= 6; 200 drawn orders above) are classified in strict mode and consensus_taxon is run on all orders of the matched-taxon list; prediction, success/error flags, others-set, conflict warning (exactly the taxa strictly below the prediction) and primary match are compared with a set-level model, so order independence is checked by construction; a second phase edits the same live objects in place and re-checks; generated databases are also materialised with two different reference orders and queried in strict mode end to end, after which persisted genomes are moved to other taxa in memory (never flushed) and classified again.',
 		note='Model: chain -> most specific; otherwise LCA of the minimal elements; no common ancestor -> failed. One genuine defect found and repaired (order-dependent consensus).',
 		design='DESIGN.md §4 C10',
 	),
 	'C04': dict(
 		category='exploration',
 		technique='Hypothesis-generated genome sets x permuted/padded signature files x 4 id attributes x broken variants; join oracle = id->signature dict built by the harness',
-		text='Databases are written with generated identifiers (nasty Unicode strings, 62-bit ints), unrelated signatures (incl. IDs that collide with another attribute or an outside genome) and drawn file order/names; after load_from_dir each genome must point at the signature stored under its own identifier and query() must report the bit-exact distance to that signature for every genome under several chunk sizes; every way of breaking completeness / id_attr / directory contents must raise.',
+		text='Databases are written with generated identifiers (nasty Unicode strings, 62-bit ints), unrelated signatures (incl. IDs that collide with another attribute or an outside genome) and drawn file order/names, the genome file in rollback-journal mode, WAL mode, or WAL mode with the true identifiers only in a hot write-ahead log beside a stale file; after load_from_dir each genome must point at the signature stored under its own identifier and query() must report the bit-exact distance to that signature for every genome under several chunk sizes; every way of breaking completeness / id_attr / directory contents must raise.',
 		note='Oracle built from what the harness wrote (dict id -> array) and R-JAC. Row (primary-key) order, membership and signature order are independent of each other. Signature IDs within a file are unique (as the property quantifies).',
 		design='DESIGN.md §4 C04',
 	),
 	'C09': dict(
 		category='exploration',
 		technique='Hypothesis-generated tie-heavy distance rows and tie-heavy databases vs sort-by-(distance, index) oracle; subprocess differential across NumPy CPU-dispatch settings and core counts',
-		text='closest_genomes is compared with the (distance, reference order) prefix for generated rows with heavy ties (lengths up to 1000, all report_closest shapes), for generated databases with identical/equidistant genomes (one QueryParams object reused across databases of different size must come back unchanged), and the JSON/CSV outputs of real `gambit query` subprocesses are compared across NPY_DISABLE_CPU_FEATURES settings and -c values (byte-identical lists, CSV and JSON name the same closest genome).',
+		text='closest_genomes is compared with the (distance, reference order) prefix for generated rows with heavy ties (lengths up to 1000, all report_closest shapes), for generated databases with identical/equidistant genomes (one QueryParams object reused across databases of different size must come back unchanged; the JSON and CSV exports of every such result are parsed and each listed entry's distance and matched taxon compared with the model), and the JSON/CSV outputs of real `gambit query` subprocesses are compared across NPY_DISABLE_CPU_FEATURES settings and -c values (byte-identical lists, CSV and JSON name the same closest genome).',
 		note='CPU dispatch is varied on this sandbox CPU only. One genuine defect found and repaired (unstable argsort).',
 		design='DESIGN.md §4 C09',
 	),
@@ -116,36 +116,36 @@ CHECKS = {
 	'C16': dict(
 		category='exploration',
 		technique='Hypothesis-generated genome sets x 3x5 supply modes x options; CSV parse-back vs R-KMER -> R-JAC -> "%.4f" oracle; --square metamorphic equality',
-		text='The dist command is run for generated query/reference genome sets (multi-contig, gzip, nested directories, file names with commas/quotes/blanks/non-ASCII, any extension) in every combination of supply modes, with/without -k/-p (k up to 32), -c and progress, absolute or relative paths, optionally after an earlier run on different content at the same paths; the CSV is parsed back and header, row labels and every cell are compared with labels derived from the file names / stored IDs and distances from the reference models; --square must be symmetric with zero diagonal and equal the full run on the same genomes.',
+		text='The dist command is run for generated query/reference genome sets (multi-contig, gzip, nested directories, file names with commas/quotes/blanks/non-ASCII, any extension) in every combination of supply modes, with/without -k/-p (k up to 32), -c and progress, absolute or relative paths, list files used from a working directory holding decoy files or without a directory option, output over a longer pre-existing file, optionally after an earlier run on different content at the same paths; the CSV is parsed back and header, row labels and every cell are compared with labels derived from the file names / stored IDs and distances from the reference models; --square must be symmetric with zero diagonal and equal the full run on the same genomes.',
 		note='File names exclude newline/NUL// and, for list files, leading/trailing blanks. In-process CLI via CliRunner.',
 		design='DESIGN.md §4 C16',
 	),
 	'C08': dict(
 		category='exploration',
 		technique='Hypothesis-generated worlds x batch plans (order/multiset x channel x gzip x file names x -c x progress x format, plus API chunk sizes); metamorphic row equality across plans + predicted row from R-KMER -> R-JAC -> R-TAX',
-		text='For each generated database and query set, 2-3 batch plans are executed (in-process CLI, csv/json/archive, positional / list-file / signature-file input, any order with duplicates, gzip, nested directories, nasty names, symbolic links named differently from their targets, -c 1..16, progress on/off, single/multi-member gzip, database via -d or GAMBIT_DB_PATH; API with chunk sizes) and every output row must be present once per input in input order, carry the expected label and equal the model row of that genome - which makes it identical in every context; rows of the same genome are also compared directly across plans.',
+		text='For each generated database and query set, 2-3 batch plans are executed (in-process CLI, csv/json/archive, positional / list-file / signature-file input, any order with duplicates, gzip, nested directories, nasty names, symbolic links named differently from their targets, -c 1..16, progress on/off, single/multi-member gzip, database via -d or GAMBIT_DB_PATH, output to a fresh file, over a longer pre-existing file, or to the standard output of a real sub-process, list files used from a working directory holding other genomes under the same relative names or without a directory option after a chdir; API with chunk sizes) and every output row must be present once per input in input order, carry the expected label and equal the model row of that genome - which makes it identical in every context; rows of the same genome are also compared directly across plans.',
 		note='Process-pool scheduling under -c is sampled (C13 owns completion order at the API). Labels exclude newline/NUL//.',
 		design='DESIGN.md §4 C08',
 	),
 	'C11': dict(
 		category='exploration',
 		technique='Hypothesis-generated real and synthetic QueryResults x 3 exporters; parse-back / field-by-field comparison with the results object, cross-format agreement, archive round trip (same and fresh session)',
-		text='Result sets produced by real strict/non-strict queries on generated worlds and synthetic result sets assembled from generated ClassifierResults (arbitrary Unicode labels incl. commas/quotes/LF/CRLF, warnings, errors, missing files, drawn params incl. chunksize None, arbitrary timestamps and extra JSON) are exported as CSV, JSON and archive; CSV is parsed back cell by cell, JSON must be strict JSON carrying the same data and agree with the CSV, and the archive must read back equal (deep comparison and ==) on the same and on a fresh session; exports are written to streams and to real file paths (labels derived from undecodable file names included).',
+		text='Result sets produced by real strict/non-strict queries on generated worlds and synthetic result sets assembled from generated ClassifierResults (arbitrary Unicode labels incl. commas/quotes/LF/CRLF, warnings, errors, missing files, drawn params incl. chunksize None, naive and time-zone-aware timestamps and extra JSON) are exported as CSV, JSON and archive; CSV is parsed back cell by cell, JSON must be strict JSON carrying the same data and agree with the CSV, and the archive must read back equal (deep comparison and ==) on the same and on a fresh session; exports are written to streams and, with exporter objects re-used for the life of the worker, to real file paths that are fresh or hold a longer older export (labels derived from undecodable file names included).',
 		note='Lone CR is excluded from generated text (csv.writer with LF terminator cannot round-trip it; "newlines" read as LF/CRLF). Labels are str. One genuine defect found and repaired (archive with chunksize None unreadable).',
 		design='DESIGN.md §4 C11',
 	),
 	'C17': dict(
 		category='exploration',
 		technique='Hypothesis-generated genome/signature sets incl. zero and tied distances x labels with Newick metacharacters; own Newick parser + UPGMA validity predicate (average-linkage identity, monotone heights, greedy validity) + own UPGMA when unique',
-		text='The tree command output is parsed with an independent Newick parser and checked to be a rooted strictly binary ultrametric tree with exactly the input labels and non-negative branch lengths whose every internal node height equals the average R-JAC distance between its two child clusters (valid under any tie-breaking), with monotone heights and no cheaper available merge skipped; when merges are separated by a margin the merge sets and heights equal the harness\'s own O(n^3) UPGMA.',
+		text='The tree command (files, list file - also from a working directory holding decoy genomes under the same names, or without --ldir after a chdir -, signature file) output is parsed with an independent Newick parser and checked to be a rooted strictly binary ultrametric tree with exactly the input labels and non-negative branch lengths whose every internal node height equals the average R-JAC distance between its two child clusters (valid under any tie-breaking), with monotone heights and no cheaper available merge skipped; when merges are separated by a margin the merge sets and heights equal the harness\'s own O(n^3) UPGMA.',
 		note='Numeric tolerance 1e-5 per branch (8 printed digits). Duplicate labels only structurally. One genuine defect found and repaired (integer IDs).',
 		design='DESIGN.md §4 C17',
 	),
 	'C18': dict(
 		category='exploration',
 		technique='model-based generation of command/library-call histories (Hypothesis lists of steps interpreted against a fresh database copy); invariant after every step: sha256 of both files, nothing flushed, commit raises',
-		text='Histories of 5..25 steps mixing every read-side command (query in all channels/formats, dist --use-db, signatures info/create --db-params, tree), failing commands, library queries with handles left open, ORM edits on each default session (attribute change, add, delete) followed by flush / autoflushing query / commit / rollback, and double opens of the signature file are run against a fresh copy of a generated database whose genome file is put into a drawn valid SQLite configuration (default, WAL, PERSIST, other page size, user_version, an older table layout, extra tables/indexes/views), interleaved with writable sessions on unrelated files; after every step the sha256 and size of the .gdb and .gs must equal their initial values, the edited session\'s own connection must still show the original rows and commit() must have raised.',
-		note='Only the bytes of the two database files are compared. In-process CLI via CliRunner.',
+		text='Histories of 5..25 steps mixing every read-side command (query in all channels/formats, dist --use-db, signatures info/create --db-params, tree), failing commands, library queries with handles left open, ORM edits on each default session (attribute change, add, delete) followed by flush / autoflushing query / commit / rollback, and double opens of the signature file are run against a fresh copy of a generated database whose genome file is put into a drawn valid SQLite configuration (default, WAL, WAL with committed transactions still in the -wal file, PERSIST, other page size, user_version, an older table layout, extra tables/indexes/views), interleaved with writable sessions on unrelated files and with another holder of an exclusive advisory lock on the signature file; after every step the sha256 and size of the .gdb and .gs must equal their initial values, the edited session\'s own connection must still show the original rows and commit() must have raised.',
+		note='Only the bytes of the two database files are compared. In-process CLI via CliRunner. One genuine defect found and repaired (D10: a write-ahead log beside the genome file was checkpointed into it by read-side use).',
 		design='DESIGN.md §4 C18',
 	),
 }
@@ -194,7 +194,7 @@ def main():
 			kind_free_text='Hypothesis 6.168 generators + complete enumeration of small finite sub-domains, sharded over 16 worker processes; explicit reference-model / round-trip / metamorphic oracles per property; shrunk failures become replay files',
 		)],
 		checks=checks,
-		notes='Every check: exit 0 = held on everything explored; exit 1 + "VIOLATION property=<id> replay=<path>"; exit 2 = harness error (never a VIOLATION). Seeds: VERIF_SEED. Known findings: /verif/KNOWN_FINDINGS.txt. Sensitivity: /verif/mutants (about 135 mutants incl. native and multi-site ones) and /verif/seeded (60 independently written breaking changes in three rounds; DESIGN.md sections 9-10 record which check catches which).',
+		notes='Every check: exit 0 = held on everything explored; exit 1 + "VIOLATION property=<id> replay=<path>"; exit 2 = harness error (never a VIOLATION). Seeds: VERIF_SEED. Known findings: /verif/KNOWN_FINDINGS.txt. Sensitivity: /verif/mutants (about 140 mutants incl. native and multi-site ones) and /verif/seeded (80 independently written breaking changes in four rounds; DESIGN.md sections 9-10 record which check catches which).',
 		not_applicable=na,
 	)
 	with open(os.path.join(VERIF, 'MANIFEST.json'), 'w') as f:
